@@ -142,7 +142,55 @@ def switch_field_reads(fn, bi):
     l = op_local(t["op"])
     if l is None:
         return []
-    return _bool_origin_fields(fn, l)
+    pl = op_place(t["op"])
+    pre = []
+    if pl.get("p"):
+        # `match cfg.flag { true => .. }` switches on the field place itself; `match (a, b) { (true, false) => .. }`
+        # on a field of a tuple built just before
+        for f_ in place_fields(pl):
+            pre.append((f_[0], f_[1], 0, None))
+        src = agg_field_source(fn, pl)
+        if src is not None:
+            sl = op_local(src)
+            if sl is None:
+                return pre
+            for f_ in place_fields(op_place(src)):
+                pre.append((f_[0], f_[1], 0, None))
+            return pre + _bool_origin_fields(fn, sl)
+    return pre + _bool_origin_fields(fn, l)
+
+
+def agg_field_source(fn, pl):
+    """If place `pl` is `<local>.i` (or `(*<ref chain>).i`) and that local is defined once, by a tuple/struct
+    aggregate (possibly moved through plain copies), the operand that was put into field i; else None."""
+    pr = [e for e in pl.get("p", []) if e != "deref"]
+    if len(pr) != 1 or not isinstance(pr[0], dict) or "f" not in pr[0]:
+        return None
+    idx = pr[0]["f"]
+    du = defuse(fn)
+    l = pl["l"]
+    for _ in range(8):
+        from cfg import whole_defs
+        ds = whole_defs(fn, l)
+        if len(ds) != 1 or ds[0].is_term:
+            return None
+        rv = ds[0].node["rv"]
+        if rv["k"] == "agg" and rv.get("ak") in ("tuple", "adt", "closure") and idx < len(rv["fields"]) and \
+                (rv.get("ak") != "adt" or rv.get("adt") not in ("core::option::Option", "core::result::Result")):
+            return rv["fields"][idx]
+        if rv["k"] in ("use", "cast"):
+            p2 = op_place(rv["op"])
+            if p2 is None or [e for e in p2.get("p", []) if e != "deref"]:
+                return None
+            l = p2["l"]
+        elif rv["k"] == "ref":
+            p2 = rv["pl"]
+            if [e for e in p2.get("p", []) if e != "deref"]:
+                return None
+            l = p2["l"]
+        else:
+            return None
+    return None
 
 
 def _bool_origin_fields(fn, local):
@@ -195,7 +243,15 @@ def _bool_origin_fields(fn, local):
                 if p is not None:
                     for f in place_fields(p):
                         out.append((f[0], f[1], flips % 2, site))
-                    work.append((p["l"], flips))
+                    src = agg_field_source(fn, p) if p.get("p") else None
+                    if src is not None:
+                        sl = op_local(src)
+                        if sl is not None:
+                            for f in place_fields(op_place(src)):
+                                out.append((f[0], f[1], flips % 2, site))
+                            work.append((sl, flips))
+                    else:
+                        work.append((p["l"], flips))
             elif k in ("ref",):
                 for f in place_fields(rv["pl"]):
                     out.append((f[0], f[1], flips % 2, site))
